@@ -68,8 +68,40 @@ let io_cases () =
                        ^ f (buffer_eq b b) ^ f (buffer_eq b (b @ [n_of_int 120])) ^ f (buffer_eq b b) ^ "\n"))
     | _ -> print_string "BADCASE\n")
 
+(* statics: <mode n|3|h> <header hex> ops...   ops: F:path:content A:path:url D:path:data
+   S:path:ref (fixed-shape sass) Q:name (static_name query) G:name (StaticFile::get probe) *)
+let statics_cases () =
+  each_line (fun l ->
+    match fields l with
+    | mode :: header :: ops ->
+      let mm = match mode with "3" -> M03 | "h" -> MHttp | _ -> MNone in
+      let st = ref (empty_statics (bytes_of_hex header)) in
+      let qs = ref [] in
+      List.iter (fun op ->
+        if op <> "" then
+        match String.split_on_char ':' op with
+        | ["F"; p; c] -> st := apply_op_m mm !st (OpFile (bytes_of_hex p, bytes_of_hex c))
+        | ["A"; p; u] -> st := apply_op_m mm !st (OpFileAs (bytes_of_hex p, bytes_of_hex u))
+        | ["D"; p; d] -> st := apply_op_m mm !st (OpData (bytes_of_hex p, bytes_of_hex d))
+        | ["S"; p; r] -> let (s', ok) = sass_ref_m mm !st (bytes_of_hex p) (bytes_of_hex r) in
+                         st := s'; qs := (if ok then "sass-ok" else "sass-err") :: !qs
+        | ["Q"; n] -> qs := (match static_name_m !st (bytes_of_hex n) with
+                             | Some u -> hex_of_bytes u | None -> "!") :: !qs
+        | ["G"; n] -> qs := (match statics_get_m !st (bytes_of_hex n) with
+                             | Some (u, id) -> hex_of_bytes u ^ "=" ^ hex_of_bytes id | None -> "!") :: !qs
+        | _ -> qs := "BADOP" :: !qs) ops;
+      let names = String.concat "," (List.map (fun (k, v) -> hex_of_bytes k ^ "=" ^ hex_of_bytes v) !st.names) in
+      print_string ("statics=" ^ hex_of_bytes (finish !st) ^ " names=" ^ (if names = "" then "-" else names)
+                    ^ " q=" ^ (if !qs = [] then "-" else String.concat "," (List.rev !qs)) ^ "\n")
+    | _ -> print_string "BADCASE\n")
+
+let hash_cases () =
+  each_line (fun l -> print_string (hex_of_bytes (checksum_slug (bytes_of_hex l)) ^ " " ^ hex_of_bytes (md5 (bytes_of_hex l)) ^ "\n"))
+
 let () =
   match Sys.argv.(1) with
   | "compile" -> compile_cases ()
   | "io" -> io_cases ()
+  | "statics" -> statics_cases ()
+  | "hash" -> hash_cases ()
   | _ -> prerr_endline "usage: driver compile|..."; exit 2
